@@ -461,7 +461,12 @@ class Harness:
             if method.upper() == "CONNECT":
                 p = 443 if port is None else port
                 c.send(("%s %s:%d HTTP/1.1\r\nHost: %s:%d\r\n\r\n" % (method, host, p, host, p)).encode("latin-1"))
-                resp = c.response()
+                head, c.rest = rig.read_head(c.s, c.rest, c.timeout)       # a CONNECT reply has no body: head only
+                resp = None
+                if head is not None:
+                    first, hdrs = rig.parse_head(head)
+                    m = re.match(r"HTTP/\d\.\d (\d{3})", first)
+                    resp = {"status": int(m.group(1)) if m else 0, "hdrs": hdrs}
                 if resp is not None and resp["status"] == 200:
                     c.send(("GET /s%s/t HTTP/1.1\r\nHost: %s\r\nConnection: close\r\n\r\n" % (sid, host)).encode("latin-1"))
                     inner = c.response()
